@@ -68,6 +68,21 @@ def run(ctx):
         except Exception:  # noqa: BLE001
             continue
         spec = Gf.inputs
+        if rng.random() < 0.15 and spec.required:
+            # an input whose NAME is also a keyword parameter of runner.run(): legal at the top level (it travels inside the values
+            # dict), so the nested graph receives it exactly as the flat one does
+            old_nm = rng.choice(list(spec.required))
+            new_nm = rng.choice(["values", "select", "max_iterations", "error_handling", "entrypoint", "on_missing", "event_processors"])
+            if new_nm not in {p_ for n in g["nodes"] for p_ in n["inputs"] + n["outputs"]}:
+                for n in g["nodes"]:
+                    n["inputs"] = [new_nm if p_ == old_nm else p_ for p_ in n["inputs"]]
+                    n["defaults"] = {(new_nm if k_ == old_nm else k_): v_ for k_, v_ in n.get("defaults", {}).items()}
+                for key in ("ext", "int_valued"):
+                    if key in g:
+                        g[key] = [new_nm if p_ == old_nm else p_ for p_ in g[key]]
+                Gf = engine.real_input_spec(g)
+                spec = Gf.inputs
+                dist["keyword_named_inputs"] = dist.get("keyword_named_inputs", 0) + 1
         bound = {x: 30 + k for k, x in enumerate(list(spec.required) + list(spec.optional)) if rng.random() < 0.3}
         g["bound"] = bound
         depth = rng.choice([1, 1, 2, 3])
@@ -87,6 +102,19 @@ def run(ctx):
         except Exception as e:  # noqa: BLE001
             ctx.violation("harness", f"renamed nesting rejected: {e}", case={"graph": gn})
             continue
+        # further wrappers are derived from some wrapper objects (another rename) and thrown away: the wrapper in the graph is
+        # not touched by that, so the nested graph still equals the flat one
+        for n in gn["nodes"]:
+            if n["kind"] == "graph" and rng.random() < 0.35:
+                real = Gn.nodes[n["name"]]
+                if len(real.inputs) >= 2 and rng.random() < 0.6:
+                    a_, b_ = rng.sample(list(real.inputs), 2)
+                    n["discarded_derivations"] = [{a_: b_, b_: a_}]          # two inputs swapped in the discarded copy
+                    dist["discarded_derivations"] = dist.get("discarded_derivations", 0) + 1
+                elif real.inputs:
+                    pick = rng.choice(list(real.inputs))
+                    n["discarded_derivations"] = [{pick: pick + "_zz"}]
+                    dist["discarded_derivations"] = dist.get("discarded_derivations", 0) + 1
         sf, sn = Gf.inputs, Gn.inputs
         rn = lambda xs: sorted(ren.get(x, x) for x in xs)  # noqa: E731
         has_sel = has_inner_selection(gn)
